@@ -46,8 +46,8 @@ func (v *Vue) setStyleProperty(n *html.Node, property, value string) {
 
 	// Rebuild style string
 	var styles []string
-	for k, v := range styleMap {
-		styles = append(styles, k+":"+v+";")
+	for _, k := range sortedKeys(styleMap) {
+		styles = append(styles, k+":"+styleMap[k]+";")
 	}
 	helpers.AppendAttr(n, "style", strings.Join(styles, ""))
 }
